@@ -25,7 +25,7 @@ RULE = ("Model-based histories on real stacks (virtual LAN + clock): two client 
         "to its own request, no request was served twice and no queue is left. Non-trivial: >= 2 simultaneously live requests to one "
         "peer, or an injected foreign/late/duplicate reply. Distinct by the operation list."
         " Also: aborts / segment-acks with the client role flag on live IDs; IOCB histories with chained requests, unconfirmed traffic beside them and aborts of finished IOCBs; segmented requests."
-        " The serving application answering everything it holds at once; on the wire a client is sent only the segments its own acks allow (histories without injected frames). Two stacks that both ask and serve under equal invoke IDs with single-frame faults: outcomes as above, nothing handed to an application twice while pending, an unsegmented request repeated only exactly one APDU timeout after it was last sent. One reduced copy of a generated shard runs with the library's debug tracing switched on (label tracing-on).")
+        " The serving application answering everything it holds at once; on the wire a client is sent only the segments its own acks allow (histories without injected frames). Two stacks that both ask and serve under equal invoke IDs with single-frame faults: outcomes as above, nothing handed to an application twice while pending, an unsegmented request repeated only exactly one APDU timeout after it was last sent. The asker withdrawing a request (client abort) at every point of a stalled segmented transfer: that ends the peer's serving transaction and touches nothing else. One reduced copy of a generated shard runs with the library's debug tracing switched on (label tracing-on).")
 ASSUMPTIONS = [
     "client APDU timeout (1 s) is shorter than the servers' application timeout (1000 s) so that 'while the original is still being processed' is observable",
     "a request that reuses a (client, invoke ID) pair the server is still processing is a duplicate by design; the model excuses it from the seen-once clause",
@@ -588,6 +588,9 @@ def run_bidir(ops, faults, segt=500, win=2):
     st = dict((m, lab.add_stack(m, Peer, retries=2, apdu_timeout=int(BIDIR_APDU_TIMEOUT * 1000), seg_timeout=segt, app_timeout=1000000,
                                 max_apdu=206, window=win)) for m in macs)
     lab.net.plan = dict((int(k), tuple(v)) for k, v in faults.items())
+    lab.add_attacker(99)
+    withdrawn = set()   # (asker, invoke)
+    excused = set()     # (serving stack, asker, invoke): the asker has withdrawn that request (client abort), serving it again on a repetition is in order
     fails = []
     live = {}           # (asker, invoke) -> token
     finished = []       # (asker, invoke, token, kind)
@@ -603,6 +606,8 @@ def run_bidir(ops, faults, segt=500, win=2):
                 t, src, inv, kind, payload = confs[conf_seen[m]]
                 conf_seen[m] += 1
                 tok = live.pop((m, inv), None)
+                if (m, inv) in withdrawn:
+                    continue        # whatever becomes of a request its asker has withdrawn is not judged
                 if tok is None:
                     fails.append(("bidir:delivered-for-no-live-request:%s" % kind, "stack %d got %s with invoke ID %r from %r; nothing of its own is live under that ID" % (m, kind, inv, src)))
                     continue
@@ -615,7 +620,7 @@ def run_bidir(ops, faults, segt=500, win=2):
         for m in macs:
             keys = [(a.pduSource.addrAddr[0], a.apduInvokeID) for a in st[m].app.pending]
             for key in set(keys):
-                if keys.count(key) > 1:
+                if keys.count(key) > 1 and (m,) + key not in excused:
                     fails.append(("bidir:retransmission-handed-to-application-again", "stack %d holds %d copies of request %r" % (m, keys.count(key), key)))
 
     def settle():
@@ -655,6 +660,16 @@ def run_bidir(ops, faults, segt=500, win=2):
             elif k == "ansall":
                 while st[macs[op[1] % 2]].app.pending:
                     answer(macs[op[1] % 2], 0)
+            elif k == "cabort":
+                # the asker withdraws a request of its own (an abort with the server flag clear, as a client sends it): that concerns the
+                # peer's serving transaction with that ID and nothing else - not the peer's own request with the same number, and
+                # nothing at the asker
+                m = macs[op[1] % 2]
+                # (also when nothing is live under that number: a delayed abort may meet a later request)
+                excused.add((3 - m, m, op[2]))
+                withdrawn.add((m, op[2]))
+                stats["client_aborts"] = stats.get("client_aborts", 0) + 1
+                lab.inject(m, 3 - m, raw_frame(dict(type=RA.ABORT, srv=False, invoke=op[2], reason=9)))
             elif k == "adv":
                 lab.run(lab.now + op[1])
                 VC.clk.now = max(VC.clk.now, lab.now)
@@ -673,9 +688,11 @@ def run_bidir(ops, faults, segt=500, win=2):
             lab.run(lab.now + 60.0)
             VC.clk.now = max(VC.clk.now, lab.now)
             process()
-            if not live and not any(st[m].app.pending for m in macs):
+            if not [k_ for k_ in live if k_ not in withdrawn] and not any(st[m].app.pending for m in macs):
                 break
         for (m, inv), tok in sorted(live.items()):
+            if (m, inv) in withdrawn:
+                continue
             fails.append(("bidir:request-without-outcome", "stack %d, invoke %d (%r...): no confirmation although everything was answered and a minute passed" % (m, inv, tok[:8])))
         for m in macs:
             if st[m].smap.clientTransactions or st[m].smap.serverTransactions:
@@ -716,6 +733,8 @@ def judge(case):
             labels.append("bidir:same-id-both-directions")
         if stats["faults_applied"]:
             labels.append("bidir:fault-applied")
+        if stats.get("client_aborts"):
+            labels.append("bidir:client-withdraws-a-request")
         return Verdict(fails, stats["both_directions_same_id"] > 0, labels)
     try:
         with watchdog(120):
@@ -828,6 +847,16 @@ def run(spec, ctx):
                         for i in range(0, 14 if big is True else 36):
                             for act in (["drop"], ["dup"], ["delay", 0.2]) if spec["tier"] == "thorough" or big is True else (["drop"], ["dup"]):
                                 ctx.check(dict(k="bidir", ops=ops, faults={str(i): act}, win=win))
+        # the asker withdraws its request at every point of a stalled segmented transfer (request or answer)
+        for big in (True, 2):
+            for first in (0, 1):
+                for stage in ("request", "answer"):
+                    for i in range(0, 14 if big is True else 30):
+                        head = [["req", 1 - first, 1, False], ["req", first, 1, big]]
+                        mid = [["ans", 1 - first, 0]] if stage == "answer" else []
+                        for pause in (None, 0.2):
+                            ops = head + mid + ([["adv", pause]] if pause else []) + [["cabort", first, 1], ["adv", 3.1], ["adv", 10.0]]
+                            ctx.check(dict(k="bidir", ops=ops, faults={str(i): ["drop"]}))
     elif kind == "bidir":
         from hypothesis import strategies as st
         req = st.tuples(st.just("req"), st.integers(0, 1), st.sampled_from([1, 1, 1, 2, 2, 3]), st.sampled_from([False, False, True, True, 2])).map(list)
@@ -836,7 +865,8 @@ def run(spec, ctx):
         adv = st.tuples(st.just("adv"), st.sampled_from([0.1, 0.4, 0.6, 1.0, 2.9, 3.0, 3.1, 10.0])).map(list)
         act = st.sampled_from([["drop"], ["drop"], ["dup"], ["delay", 0.2], ["delay", 0.7]])
         faults = st.dictionaries(st.integers(0, 50).map(str), act, max_size=3)
-        strat = st.tuples(st.lists(st.one_of(req, req, req, ans, ans, ansall, adv), min_size=2, max_size=16), faults, st.sampled_from([500, 1000]), st.sampled_from([1, 2, 2, 4])) \
+        cab = st.tuples(st.just("cabort"), st.integers(0, 1), st.sampled_from([1, 1, 2, 3])).map(list)
+        strat = st.tuples(st.lists(st.one_of(req, req, req, req, ans, ans, ans, ansall, adv, adv, cab), min_size=2, max_size=16), faults, st.sampled_from([500, 1000]), st.sampled_from([1, 2, 2, 4])) \
             .map(lambda t: dict(k="bidir", ops=t[0], faults=t[1], segt=t[2], win=t[3]))
         ctx.for_all(strat, spec["n"])
     elif kind == "twins":
